@@ -221,7 +221,7 @@ def polyCase (thr : Nat) (key : String) (a : Array String) (r : Array String) : 
            info := renderPoly (norm md.1) ++ " " ++ FieldIO.render md.2 }
   | "isdiv" => do
     let A ← P 0; let B ← P 1; let v ← r[0]? >>= parseHexInt
-    pure { spec := (v != 0) == divides B A }
+    pure { spec := (v != 0) == divides B A, model := (v != 0) == Givaro.Model.PolyMore.isDivisor thr A B }
   -- gcd family
   | "gcd" => do
     let A ← P 0; let B ← P 1; let d ← RP 0
